@@ -9,7 +9,7 @@
 (***************************************************************************)
 EXTENDS Integers, Sequences, FiniteSets, TLC, Json
 
-CONSTANTS M, BitmapW, GetW, LateT, NackHorizon, Fixed_F20, TraceFile
+CONSTANTS M, BitmapW, GetW, LateT, NackHorizon, Fixed_F20, Fixed_F26, TraceFile
 
 INSTANCE CacheOps
 CM == INSTANCE CacheMonitor
